@@ -974,6 +974,24 @@ class MultiUserChannelMatrix:  # pylint: disable=R0902
                     self._K)
             self._pathloss_big_matrix.setflags(write=False)
 
+    @staticmethod
+    def _antenna_array(N: IntOrIntArrayUnion, K: int) -> np.ndarray:
+        """
+        Number of antennas of each user as a 1D numpy array of integers.
+
+        Parameters
+        ----------
+        N : int | np.ndarray
+            The number of antennas of each user (any integer array_like),
+            or a single integer (python or numpy integer) if all users
+            have the same number of antennas.
+        K : int
+            Number of users.
+        """
+        if isinstance(N, (int, np.integer)):
+            return np.ones(int(K), dtype=int) * int(N)
+        return np.atleast_1d(np.asarray(N)).astype(int)
+
     def init_from_channel_matrix(self, channel_matrix: np.ndarray,
                                  Nr: IntOrIntArrayUnion,
                                  Nt: IntOrIntArrayUnion, K: int) -> None:
@@ -1001,8 +1019,8 @@ class MultiUserChannelMatrix:  # pylint: disable=R0902
         """
         # If Nt or Nr (or both) is (are) int assume the same value should
         # be used for all users.
-        Nr_array = np.ones(K, dtype=int) * Nr if isinstance(Nr, int) else Nr
-        Nt_array = np.ones(K, dtype=int) * Nt if isinstance(Nt, int) else Nt
+        Nr_array = MultiUserChannelMatrix._antenna_array(Nr, K)
+        Nt_array = MultiUserChannelMatrix._antenna_array(Nt, K)
         del Nt, Nr
         # if isinstance(Nr, int):  # pragma: no cover
         #     Nr = np.ones(K, dtype=int) * Nr
@@ -1059,32 +1077,37 @@ class MultiUserChannelMatrix:  # pylint: disable=R0902
         K : int
             Number of users.
         """
+        Nr_array = MultiUserChannelMatrix._antenna_array(Nr, K)
+        Nt_array = MultiUserChannelMatrix._antenna_array(Nt, K)
+        del Nt, Nr
+        K = int(K)
+        if (Nt_array.size != K) or (Nr_array.size != K):
+            raise ValueError(
+                "K must be equal to the number of elements in Nr and Nt")
+
         # Reset the _big_H_with_pathloss and _H_with_pathloss. They will be
         # correctly set the first time the _get_H or _get_big_H methods are
         # called.
         self._big_H_with_pathloss = None
         self._H_with_pathloss = None
 
-        if isinstance(Nr, int):
-            Nr = np.ones(K, dtype=int) * Nr
-        if isinstance(Nt, int):
-            Nt = np.ones(K, dtype=int) * Nt
-
-        self._Nr = Nr.astype(int)
-        self._Nt = Nt.astype(int)
-        self._K = int(K)
+        self._Nr = Nr_array
+        self._Nt = Nt_array
+        self._K = K
         self._update_pathloss_big_matrix()
 
         self._big_H_no_pathloss = randn_c_RS(self._RS_channel,
                                              np.sum(self._Nr),
                                              np.sum(self._Nt))
 
-        self._H_no_pathloss = single_matrix_to_matrix_of_matrices(
-            self._big_H_no_pathloss, Nr, Nt)
-
         # Assures that _big_H and _H will stay in sync by disallowing
-        # modification of individual elements in both of them.
+        # modification of individual elements in both of them. This must be
+        # done before the blocks of _H are created: a view of a writable
+        # array stays writable.
         self._big_H_no_pathloss.setflags(write=False)
+
+        self._H_no_pathloss = single_matrix_to_matrix_of_matrices(
+            self._big_H_no_pathloss, Nr_array, Nt_array)
         self._H_no_pathloss.setflags(write=False)
 
     def get_Hkl(self, k: int, l: int) -> np.ndarray:
@@ -2356,14 +2379,14 @@ class MultiUserChannelMatrixExtInt(  # pylint: disable=R0904
         output : tuple
             The tuple (full_Nr, full_Nt, full_K, extIntK, extIntNt).
         """
-        if isinstance(NtE, (int, np.int_)):
+        if isinstance(NtE, (int, np.integer)):
             # NtE is a scalar number, which means we have a single external
             # interference source.
             extIntK = 1
-            extIntNt = np.array([NtE])
+            extIntNt = np.array([int(NtE)])
         else:
             # We have multiple external interference sources
-            extIntNt = np.array(NtE)
+            extIntNt = np.atleast_1d(np.array(NtE)).astype(int)
             extIntK = extIntNt.size
 
         # Number of receive antennas also including the number of receive
@@ -2371,7 +2394,7 @@ class MultiUserChannelMatrixExtInt(  # pylint: disable=R0904
         full_Nr = np.hstack([Nr, np.zeros(extIntK, dtype=int)])
         # Number of transmit antennas also including the number of transmit
         # antennas of the interference users
-        full_Nt = np.hstack([Nt, NtE])
+        full_Nt = np.hstack([Nt, extIntNt])
         # Total number of users including the interference users.
         full_K = K + extIntK
 
@@ -2411,6 +2434,9 @@ class MultiUserChannelMatrixExtInt(  # pylint: disable=R0904
         ValueError
             If the arguments are invalid.
         """
+        Nr = MultiUserChannelMatrix._antenna_array(Nr, K)
+        Nt = MultiUserChannelMatrix._antenna_array(Nt, K)
+
         (full_Nr, full_Nt, full_K, extIntK, extIntNt) \
             = MultiUserChannelMatrixExtInt._prepare_input_parans(
                 Nr, Nt, K, NtE)
@@ -2443,10 +2469,8 @@ class MultiUserChannelMatrixExtInt(  # pylint: disable=R0904
             source(s). If NtE is an iterable, the number of external
             interference sources will be the len(NtE).
         """
-        if isinstance(Nr, int):
-            Nr = np.ones(K, dtype=int) * Nr
-        if isinstance(Nt, int):
-            Nt = np.ones(K, dtype=int) * Nt
+        Nr = MultiUserChannelMatrix._antenna_array(Nr, K)
+        Nt = MultiUserChannelMatrix._antenna_array(Nt, K)
 
         (full_Nr, full_Nt, full_K, extIntK, extIntNt) \
             = MultiUserChannelMatrixExtInt._prepare_input_parans(
